@@ -4,6 +4,7 @@ import Driver.Iov
 import Driver.RangeLock
 import Driver.Sync
 import Driver.Chan
+import Driver.ObjCache
 /-! `driver <model>`: one op per stdin line, one canonical result line per op on stdout. -/
 
 structure Model where
@@ -18,6 +19,7 @@ def dispatch (model : String) : Option Model :=
   | "rs" => some (pureModel Driver.RangeSplit.step)
   | "path" => some (pureModel Driver.Path.step)
   | "iov" => some ⟨Driver.Iov.St, {}, Driver.Iov.step⟩
+  | "objcache" => some ⟨Driver.ObjCache.D, {}, Driver.ObjCache.step⟩
   | "chan" => some ⟨Driver.Chan.D, {}, Driver.Chan.step⟩
   | "sync" => some ⟨Driver.Sync.D, {}, Driver.Sync.step⟩
   | "rangelock" => some ⟨Photon.RangeLock.State, {}, Driver.RangeLock.step⟩
